@@ -44,7 +44,7 @@ RULE = ("History on ONE operator: (jac|hess) x function kind [plain function wit
         "H.mv,H.rmv,H.mm,H.fullmatrix} with operand batch rank 0-2 under no_grad/enable_grad; first- and second-order "
         "gradient of the last product w.r.t. everything currently installed; substitute fresh tensors through "
         "uselinopparams (nested <=3; all new / partly identical / only the object's tensors / only the explicit arguments); leave the innermost substitution; solve(J,B) with "
-        "cg/bicgstab/exactsolve/custom_exactsolve + its gradient. One fault-free execution numbers the N entries into the "
+        "cg/bicgstab/exactsolve/custom_exactsolve + its gradient; in a quarter of the histories the operator is made and used inside a caller-opened substitution of the object's tensors. One fault-free execution numbers the N entries into the "
         "user's function, then <=2 (quick) executions with the function raising at a drawn entry k and the request "
         "retried. A case is non-trivial iff a product or gradient was judged under a substitution (cache-miss path) AND "
         "one after it was left or before it (cache-hit path); distinct = distinct (jac|hess, function kind, object kind, "
@@ -94,6 +94,9 @@ def draw_scenario(cs, cfg):
     sc["cgrad"] = not cs.bool("c_nograd", 1, 4)
     sc["c_nonleaf"] = sc["cgrad"] and cs.bool("c_nonleaf", 1, 3)      # a differentiable argument that is an intermediate result
     sc["construct_nograd"] = cs.bool("construct_nograd", 1, 4)          # jac()/hess() called with grad recording off
+    # the operator is made (and used) while a caller-opened substitution has replaced the object's tensors -
+    # what every enclosing functional's backward pass does to a functional called inside its user function
+    sc["construct_under_subst"] = sc["fkind"] != "plain" and cs.bool("construct_under_subst", 1, 4)
     sc["rgW"] = not cs.bool("W_nograd", 1, 6)
     sc["rgb"] = not cs.bool("b_nograd", 1, 6)
     # which argument the derivative is taken with respect to
@@ -289,6 +292,16 @@ def execute(sc, plan, reference=None):
         d.update(extra)
         viol.append(d)
 
+    true_snap = Snapshot(env.actor, "obj") if env.actor is not None else None
+    outer_cm = None
+    if sc.get("construct_under_subst") and env.actor is not None:
+        from xitorch._core.pure_function import get_pure_function
+        outer_pf = get_pure_function(env.actor.f_j17 if sc["which"] == "jac" else env.actor.f_h17)
+        clones = [(p.detach() * 0.9 + 0.05).requires_grad_() for p in outer_pf.objparams()]
+        outer_cm = outer_pf.useobjparams(clones)
+        outer_cm.__enter__()
+        env.level0["obj"] = list(clones)
+        SIM.count("reach.operator_made_under_substitution")
     init_snap = Snapshot(env.actor, "obj") if env.actor is not None else None
     # ---- build the operator
     tgt = sc["target"]
@@ -339,6 +352,8 @@ def execute(sc, plan, reference=None):
                 info["N"] = SIM.seq
                 info["digest"] = SIM.digest()
                 info["counters"] = dict(SIM.counters)
+                if outer_cm is not None:
+                    outer_cm.__exit__(None, None, None)
                 return {"values": [], "N": SIM.seq, "violations": viol, "info": info}
             # the fault landed in the construction-time evaluation: nothing was substituted yet
             info["fired"] = {"k": SIM.seq, "op": -1, "opname": "construct"}
@@ -347,6 +362,8 @@ def execute(sc, plan, reference=None):
                     V(inv, "construct", "after a failing construction: " + detail)
             info["N"] = SIM.seq
             info["digest"] = SIM.digest()
+            if outer_cm is not None:
+                outer_cm.__exit__(None, None, None)
             return {"values": [], "N": SIM.seq, "violations": viol, "info": info}
     if tuple(op.shape) != (env.nout, env.nin):
         V("operator_shape", "construct", "operator shape %s, expected (%d, %d)" % (tuple(op.shape), env.nout, env.nin))
@@ -491,7 +508,10 @@ def execute(sc, plan, reference=None):
                 js = [j for j, p in enumerate(cur) if p is t]
                 newobj.append(new[js[0]] if js else t)
                 if not js:
-                    SIM.count("object_tensor_not_among_operator_parameters")
+                    # the operator does not declare a tensor of the object among its parameters, so nothing that
+                    # consumes the operator (solve, symeig) can differentiate with respect to it
+                    V("operator_lacks_object_tensor", "subst", "a tensor held by the user's object is not among the "
+                      "operator's parameters (getlinopparams)", sub=str(bool(sub)))
             lvl["obj"] = newobj
             levels.append(lvl)
             ctxs.append([cm, changed])
@@ -629,6 +649,10 @@ def execute(sc, plan, reference=None):
                 info["hits"] += 1
         except Exception as e:
             V("unexpected_exception", "end.mv", "%s: %s" % (type(e).__name__, str(e)[:300]))
+    if outer_cm is not None:
+        outer_cm.__exit__(None, None, None)
+        for inv, detail in compare(true_snap, env.actor):
+            V(inv, "end", "after the caller-opened substitution was left: " + detail)
     for v in viol:
         v.setdefault("op", len(sc["ops"]))
     info["N"] = SIM.seq
